@@ -38,7 +38,7 @@ CHECKS = {
     "C20": (
         "model_checking",
         "exhaustive enumeration of a grammar universe x {u8,u16,u32} plus boundary families around 255 / 65535 built in watched child processes; sizes, indices, query dumps and parses compared across widths",
-        "Every grammar of the quick universe is built in the three widths and the complete query dump (grammar, table, state graph) and all short parses must agree. Seven boundary families (c rules, c tokens, c productions, one production of c symbols, an Eco production whose compiled length - symbols plus implicit-token references - is c while a longer source production stays short, exactly c LR states, a lexer of c rules) for c = 250..260 (thorough also 65530..65540) are built in every width inside a watched child: either the build succeeds, reports exactly the model's sizes, hands out only in-range indices and agrees with the u32 build, or it panics with one of the documented refusals; acceptance must be monotone in the width. Anything else (other panic, hang, wrapped size) is a violation.",
+        "Every grammar of the quick universe is built in the three widths and the complete query dump (grammar, table, state graph) and all short parses must agree. Eight boundary families (c rules, c tokens, c productions, one production of c symbols, an Eco production whose compiled length - symbols plus implicit-token references - is c while a longer source production stays short, exactly c LR states, a lexer of c rules, a lexer of c rules whose last 12 have no name) for c = 250..260 (thorough also 65530..65540) are built in every width inside a watched child: either the build succeeds, reports exactly the model's sizes, hands out only in-range indices and agrees with the u32 build, or it panics with one of the documented refusals; acceptance must be monotone in the width. Anything else (other panic, hang, wrapped size) is a violation.",
         "State numbers may differ between widths only as far as known finding C20-b allows (identical after canonical renumbering). u32 boundaries are out of reach.",
         "DESIGN.md 3/C20",
     ),
@@ -73,7 +73,7 @@ CHECKS = {
     "C19": (
         "model_checking",
         "exhaustive enumeration of all strings up to a length bound x all chunkings x all offsets x all spans against a naive line/column reference",
-        "Every string of up to 7 (thorough 12) characters over {a, two-byte e-acute, LF, CR}, every way of feeding it to the cache in up to four pieces (empty pieces included), every character-boundary offset and every span on character boundaries: line number, line start, line/column and line extent are compared with a three-line naive reference and nothing may panic; offsets beyond the text must be refused. For the shorter strings the same is done through LRNonStreamingLexer::{line_col, span_lines_str} (line_col of every span must also equal the cache's own answer for its two ends) and through LexParseError::pp for a real lexing error and a real parsing error placed at every position.",
+        "Every string of up to 7 (thorough 12) characters over {a, two-byte e-acute, LF, CR}, every way of feeding it to the cache in up to four pieces (empty pieces included; also with every offset of the text fed so far looked up after each piece), every character-boundary offset and every span on character boundaries: line number, line start, line/column and line extent are compared with a three-line naive reference and nothing may panic; offsets beyond the text must be refused. For the shorter strings the same is done through LRNonStreamingLexer::{line_col, span_lines_str} (line_col of every span must also equal the cache's own answer for its two ends) and through LexParseError::pp for a real lexing error and a real parsing error placed at every position.",
         "A non-empty span ending exactly on a line start may or may not include that next line (the repository's own test pins 'includes'); the LF of a CR LF pair may carry the CR's column or the next.",
         "DESIGN.md 3/C19",
     ),
@@ -143,7 +143,7 @@ CHECKS = {
     "C17": (
         "model_checking",
         "bounded-exhaustive enumeration of grammars x cost vectors against fixed-point reference models; watched child processes for termination",
-        "Every grammar of the listed universes (all shapes up to 2-3 rules / 2-3 tokens / 6-7 symbols, up to renaming; unproductive, unreachable and self-deriving rules included; quick tier: plus the finite-language three-rule grammars of U(3,2,2,2,6) for the two cost queries) and, for the static analyses, of the families F-chains, F-empty and F-wide (token sets longer than one machine word) is pushed through the real FIRST/FOLLOW/nullable/has_path code and, with every cost vector over {1,2}/{1,2,3}, through the real sentence generator (on the grammars of at most 4-5 symbols also with the cost vectors over {100, 200} and all-255: token costs are bytes, their sums are not); every answer for every rule is compared with textbook least fixed points that are themselves cross-checked against brute-force sentential-form / language enumeration on each run. Termination is decided by a watched child process per query.",
+        "Every grammar of the listed universes (all shapes up to 2-3 rules / 2-3 tokens / 6-7 symbols, up to renaming; unproductive, unreachable and self-deriving rules included; quick tier: plus the finite-language three-rule grammars of U(3,2,2,2,6) for the two cost queries) and, for the static analyses, of the families F-chains, F-empty, F-wide (token sets longer than one machine word) and F-refgraph (all 194,481 reference graphs on four rules with up to two ordered references per rule) is pushed through the real FIRST/FOLLOW/nullable/has_path code and, with every cost vector over {1,2}/{1,2,3}, through the real sentence generator (on the grammars of at most 4-5 symbols also with the cost vectors over {100, 200} and all-255: token costs are bytes, their sums are not); every answer for every rule is compared with textbook least fixed points that are themselves cross-checked against brute-force sentential-form / language enumeration on each run. Termination is decided by a watched child process per query.",
         "Claims nothing beyond the universes; trusts the reference fixed points (validated per run against brute force) and the watchdog limits (a timeout is a verdict only after confirmation in isolation).",
         "DESIGN.md 3/C17",
     ),
